@@ -68,14 +68,18 @@ def _parse_grammar(description):
 
 
 def _install_module(name, module):
+    sys.modules[name] = module
+
     if '.' not in name:
-        sys.modules[name] = module
         return
 
     parent_name, child_name = name.rsplit('.', 1)
     try:
         parent_module = importlib.import_module(parent_name)
     except ModuleNotFoundError:
+        # Create a placeholder package, so that the module can be imported.
         parent_module = types.ModuleType(parent_name)
+        parent_module.__path__ = []
         _install_module(parent_name, parent_module)
-        setattr(parent_module, child_name, module)
+
+    setattr(parent_module, child_name, module)
